@@ -696,9 +696,13 @@ func (e *parEngine) collect(r *parRegion, fn *ssa.Function, env map[ssa.Value]st
 					if i >= len(callee.Params) {
 						break
 					}
-					if s.depends(a) && isIntType(a.Type()) {
+					if s.depends(a) {
+						// values derived from the task index (its record range, its
+						// partition, a frame of it …) stay task-dependent in the callee
 						ctask[callee.Params[i]] = true
-						continue
+						if isIntType(a.Type()) {
+							continue
+						}
 					}
 					n := s.valName(a)
 					if n == "" {
